@@ -8,6 +8,7 @@ import (
 	"image"
 	"image/color"
 	"math"
+	"strings"
 	"time"
 
 	"github.com/mandykoh/prism/linear"
@@ -183,6 +184,10 @@ type c14ImgCase struct {
 	Dst   string `json:"dst"`
 	Par   int    `json:"parallelism"`
 	Seed  uint64 `json:"content_seed"`
+	// Lo..Hi: for the "-band" sources, every pixel's alpha lies in this range (a whole-image
+	// predicate such as "is opaque" or "has no alpha" decides a fast path only for such images)
+	Lo int `json:"alpha_lo,omitempty"`
+	Hi int `json:"alpha_hi,omitempty"`
 }
 
 func c14ImageCheck(cs c14ImgCase) (bad bool, msg string) {
@@ -223,6 +228,48 @@ func c14ImageCheck(cs c14ImgCase) (bad bool, msg string) {
 			m.Pix[i*4+3] = uint8(i >> 8)
 		}
 		src = m
+	case "RGBA64-band", "NRGBA64-band", "RGBA-band", "NRGBA-band":
+		rect = image.Rect(-3, -9, 61, 39) // negative rows and columns
+		n := rect.Dx() * rect.Dy()
+		alpha := func(i int) int { return cs.Lo + (i*40503+11)%(cs.Hi-cs.Lo+1) }
+		switch cs.Src {
+		case "RGBA64-band", "NRGBA64-band":
+			pix := make([]uint8, n*8)
+			for i := 0; i < n; i++ {
+				a := alpha(i)
+				for k := 0; k < 3; k++ {
+					c := rng.Intn(65536)
+					if cs.Src == "RGBA64-band" {
+						c = rng.Intn(a + 1)
+					}
+					pix[i*8+2*k], pix[i*8+2*k+1] = uint8(c>>8), uint8(c)
+				}
+				pix[i*8+6], pix[i*8+7] = uint8(a>>8), uint8(a)
+			}
+			if cs.Src == "RGBA64-band" {
+				src = &image.RGBA64{Pix: pix, Stride: rect.Dx() * 8, Rect: rect}
+			} else {
+				src = &image.NRGBA64{Pix: pix, Stride: rect.Dx() * 8, Rect: rect}
+			}
+		default:
+			pix := make([]uint8, n*4)
+			for i := 0; i < n; i++ {
+				a := alpha(i) >> 8
+				for k := 0; k < 3; k++ {
+					c := rng.Intn(256)
+					if cs.Src == "RGBA-band" {
+						c = rng.Intn(a + 1)
+					}
+					pix[i*4+k] = uint8(c)
+				}
+				pix[i*4+3] = uint8(a)
+			}
+			if cs.Src == "RGBA-band" {
+				src = &image.RGBA{Pix: pix, Stride: rect.Dx() * 4, Rect: rect}
+			} else {
+				src = &image.NRGBA{Pix: pix, Stride: rect.Dx() * 4, Rect: rect}
+			}
+		}
 	case "RGBA64-black": // a shadow gradient: colour constant, only alpha varies from pixel to pixel
 		m := image.NewRGBA64(rect)
 		for i := 0; i < 65536; i++ {
@@ -299,7 +346,21 @@ func c14Images(r *core.Run) {
 		for _, fn := range []string{"LineariseImage", "EncodeImage"} {
 			for _, src := range []string{"NRGBA64", "RGBA64", "NRGBA", "RGBA64-black", "NYCbCrA"} {
 				for _, dst := range []string{"RGBA64", "NRGBA64", "RGBA", "NRGBA"} {
-					cases = append(cases, c14ImgCase{s.Name, fn, src, dst, 1 + rng.Intn(8), rng.U64()})
+					cases = append(cases, c14ImgCase{Space: s.Name, Fn: fn, Src: src, Dst: dst, Par: 1 + rng.Intn(8), Seed: rng.U64()})
+				}
+			}
+		}
+	}
+	// images whose alphas all lie in a narrow band
+	bands := [][2]int{{0xFF00, 0xFFFF}, {0xFFFE, 0xFFFF}, {0xFFFF, 0xFFFF}, {0xFF00, 0xFF00}, {0xFFFE, 0xFFFE}, {0xFE00, 0xFEFF}, {0x8000, 0x80FF}, {0, 0xFF}, {1, 1}, {0, 1}, {0x0100, 0x01FF}, {0, 0}}
+	bi := 0
+	for _, s := range libSpaces {
+		for _, fn := range []string{"LineariseImage", "EncodeImage"} {
+			for _, src := range []string{"RGBA64-band", "NRGBA64-band", "RGBA-band", "NRGBA-band"} {
+				for _, b := range bands {
+					dst := []string{"RGBA64", "NRGBA64", "RGBA", "NRGBA"}[bi%4]
+					bi++
+					cases = append(cases, c14ImgCase{Space: s.Name, Fn: fn, Src: src, Dst: dst, Par: 1 + rng.Intn(8), Seed: rng.U64(), Lo: b[0], Hi: b[1]})
 				}
 			}
 		}
@@ -308,7 +369,11 @@ func c14Images(r *core.Run) {
 		if bad, msg := c14ImageCheck(cases[i]); bad {
 			r.Violate("image", cases[i].Space+"/"+cases[i].Fn+"/"+cases[i].Dst+"<-"+cases[i].Src, msg, cases[i])
 		}
-		r.AddEvals(65536)
+		if cases[i].Hi != 0 || strings.HasSuffix(cases[i].Src, "-band") {
+			r.AddEvals(64 * 48)
+		} else {
+			r.AddEvals(65536)
+		}
 	})
 	r.Obs("image_alpha_cases", len(cases))
 }
@@ -316,6 +381,33 @@ func c14Images(r *core.Run) {
 func runC14(r *core.Run) {
 	r.Rule = "all 65536 alphas x 68 channel values <= alpha (0, 1, a-1, a + 64 spread) x 4 spaces x {LineariseColor, EncodeColor} x colour types; all 8-bit (channel, alpha) pairs through the 8-bit constructors; all codes for opaque agreement; float alpha sweep of C02's point list through every encoder of alpha; thorough: every (c,a) pair with c<=a for LineariseColor and every (c,a) pair for EncodeColor; non-trivial = distinct (space, a, c) with 0 < c < a < max"
 	r.Assumptions = []string{"'transparent decodes to zero' is demanded where transparency determines the colour (premultiplied and generic constructors); ColorFromNRGBA is checked for alpha exactness only (DESIGN.md C14 scope note)"}
+	// the first calls of the process: eight goroutines at once, large and small alphas, every entry
+	// point (a lazily built alpha or channel table must not be observable)
+	{
+		entries := []string{"linear.RGBFromEncoded", "linear.RGBFromLinear", "ColorFromEncodedColor", "ColorFromLinearColor", "LineariseColor", "EncodeColor"}
+		alphas := []int{65535, 65534, 65280, 40000, 32768, 32767, 4096, 255, 1}
+		check := func(g int) {
+			for _, s := range libSpaces {
+				for k := range alphas {
+					a := alphas[(k+g)%len(alphas)]
+					for _, t := range []string{"NRGBA64", "RGBA64"} {
+						in := [4]uint16{uint16(a / 3), uint16(a / 2), uint16(a), uint16(a)}
+						for _, e := range entries {
+							cs := c14Case{Space: s.Name, Entry: e, In: in, Type: t}
+							if bad, msg := c14Check(cs); bad {
+								r.Violate("pair16", s.Name+"/"+e+"/first-use", msg+" (among the first calls of the process, eight goroutines at once)", cs)
+							}
+						}
+					}
+				}
+			}
+		}
+		firstUseAuto(r.Variant, 8, check)
+		r.AddEvals(int64(8 * len(libSpaces) * len(alphas) * 2 * len(entries)))
+		if isBurst(r.Variant) {
+			return
+		}
+	}
 	for _, s := range libSpaces {
 		s := s
 		core.ParallelFor(256, 16, func(blk int) {
@@ -441,10 +533,10 @@ func runC14(r *core.Run) {
 		c14Thorough(r)
 	}
 	if r.Variant == "" {
-		for _, v := range []string{"encfirst+rev@3", "decfirst@1"} {
+		for _, v := range append([]string{"encfirst+rev@3", "decfirst@1", "warm@4"}, burstVariants...) {
 			r.RunVariantChild(v, 10*time.Minute, false)
 		}
-		r.Obs("fresh_process_variants", []string{"encfirst+rev@3", "decfirst@1"})
+		r.Obs("fresh_process_variants", []string{"encfirst+rev@3", "decfirst@1", "warm@4"})
 	}
 	r.Sample(map[string]any{"space": "srgb", "LineariseColor": color.RGBA64{R: 1000, G: 20000, B: 30000, A: 30000}, "result": spaceByName("srgb").Linearise(color.RGBA64{R: 1000, G: 20000, B: 30000, A: 30000})})
 	r.Sample(map[string]any{"space": "adobergb", "EncodeColor": color.RGBA64{R: 5, G: 77, B: 200, A: 201}, "result": spaceByName("adobergb").Encode(color.RGBA64{R: 5, G: 77, B: 200, A: 201})})
